@@ -266,7 +266,7 @@ func c20WaitFor(cond func() bool, d time.Duration) bool {
 	return true
 }
 
-const c20Wait = 20 * time.Second
+const c20Wait = 10 * time.Second
 
 func c20RunScenario(sc c20Scenario) c20ChildOut {
 	out := c20ChildOut{TimeoutMs: float64(rogger.VerifWaitFlushTimeout()) / 1e6}
@@ -704,6 +704,11 @@ func c20Run(c *c20Case) []Failure {
 	}
 	t0 := time.Now()
 	defer func() { c.WallMs = float64(time.Since(t0)) / 1e6 }()
+	if _, broken := c20Broken.Load(c.Sc.Mode); broken {
+		c.Note = "skipped: a time-limit failure of this mode was already confirmed on this run"
+		c.NoCoq = true
+		return nil
+	}
 	for attempt := 0; ; attempt++ {
 		sc := c.Sc
 		if sc.Mode == "panic" {
@@ -754,6 +759,9 @@ func c20Run(c *c20Case) []Failure {
 		if c20Replaying && len(fs) == 0 && attempt < 40 {
 			continue
 		}
+		if timing && !functional {
+			c20Broken.Store(sc.Mode, true)
+		}
 		c.Events, c.QLen, c.FlushMs, c.Note = out.Events, out.QLen, out.FlushMs, out.Note
 		c.NoCoq = len(out.Events) > 2500 || len(out.Events) == 0
 		return fs
@@ -761,6 +769,7 @@ func c20Run(c *c20Case) []Failure {
 }
 
 var c20WorkDir = ""
+var c20Broken sync.Map // mode -> true once a time-limit failure of that mode has been confirmed three times: the remaining scenarios of the mode are skipped
 var c20Replaying = false // --replay: the schedule of a scenario is not deterministic, repeat it until it fails (at most 40 times)
 
 func c20Gen(tier string, rng *rand.Rand) []c20Case {
